@@ -221,9 +221,57 @@ def too_deep(text, depth=30, ops=250):
     return m > depth or sum(text.count(c) for c in "+-*/%^!<>=,;|±:") > ops
 
 
-def run(ctx, texts, stream_name="run", features=None, min_modelled=0.5, timeout=5.0, label=None):
+# driver streams that evaluate the same program with the function bodies TRANSLATED from the Python source
+# (Gen/Bodies.lean, translate/gen_bodies.py) substituted for the hand-written ones (Model/EvalG.lean)
+BODIES_STREAMS = {"run": "runG", "runsess": "runsessG"}
+BODIES_GEN = ["Bodies"]
+BODIES_MODULES = ["KaVerif.Props.Bodies"]
+
+
+def bodies_theorems(prefixes=None):
+    """the `Props/Bodies` agreement theorems (tools/bodies_theorems.txt, written next to Props/Bodies.lean), optionally only
+    those of descriptors whose signature mentions one of `prefixes` (e.g. 'Interval', 'Array')"""
+    import os
+    p = os.path.join(core.VERIF, "tools", "bodies_theorems.txt")
+    names = [l.strip() for l in open(p)] if os.path.exists(p) else []
+    if prefixes is not None:
+        names = [n for n in names if any(x in n for x in prefixes)]
+    return ["KaVerif.BODIES_table", "KaVerif.BODIES_numdisp_real", "KaVerif.BODIES_numsem_real"] + names
+
+
+def bodies_coverage(ctx):
+    """what the translator covers, for the evidence: descriptors translated / refused (Gen/Bodies.lean), how many of the
+    translated ones the hand-written table models, and which of those have no `Props/Bodies` theorem yet"""
+    import os
+    lean = os.path.join(core.VERIF, "lean", "KaVerif")
+    try:
+        gen = open(os.path.join(lean, "Gen", "Bodies.lean"), encoding="utf-8").read()
+        props = open(os.path.join(lean, "Props", "Bodies.lean"), encoding="utf-8").read()
+        ev = open(os.path.join(lean, "Model", "Eval.lean"), encoding="utf-8").read()
+    except OSError:
+        return None
+    key = re.compile(r'^  \("((?:[^"\\]|\\.)*)", ', re.M)
+
+    def block(src, head):
+        i = src.find(head)
+        return src[i: src.find("]\n\n", i)] if i >= 0 else ""
+    translated = key.findall(block(gen, "def bodiesTable"))
+    refused = key.findall(block(gen, "def untranslated"))
+    modelled = set(key.findall(block(ev, "def implTable")))
+    covered = set(re.findall(r'^  "((?:[^"\\]|\\.)*)",?$', block(props, "def Bodies.covered"), re.M))
+    out = dict(translated=len(translated), refused=len(refused), translated_and_modelled=len([d for d in translated if d in modelled]),
+               with_theorem=len([d for d in translated if d in covered]),
+               modelled_without_theorem=[d for d in translated if d in modelled and d not in covered],
+               modelled_but_refused=[d for d in refused if d in modelled])
+    ctx.cov["translated_bodies"] = out
+    return out
+
+
+def run(ctx, texts, stream_name="run", features=None, min_modelled=0.5, timeout=5.0, label=None, bodies=False):
     """texts: list of str, or of (str, feature-tag list).  Returns coverage statistics.
-    `stream_name` is the driver stream (`run`); `label` names this batch in the evidence (default: the stream name)."""
+    `stream_name` is the driver stream (`run`); `label` names this batch in the evidence (default: the stream name).
+    `bodies=True`: the same programs also go through the stream that runs the TRANSLATED function bodies (`runG`) and are
+    compared with the same real answers (recorded as `<label>:translated-bodies`)."""
     label = label or stream_name
     R = ctx.real
     _stub_plots()
@@ -280,10 +328,29 @@ def run(ctx, texts, stream_name="run", features=None, min_modelled=0.5, timeout=
         ctx.broken("pipeline model covers only %d of %d generated programs (implementation descriptors changed?)"
                    % (stats["modelled"], stats["total"]), repr(stats["unmodelled_reasons"]))
     ctx.cov.setdefault("pipeline", {})[label] = {k: v for k, v in stats.items() if k != "first_disagreements"}
+    if bodies and stream_name in BODIES_STREAMS:
+        g = BODIES_STREAMS[stream_name]
+        gst = dict(total=len(cases), modelled=0, unmodelled=0, disagreements=0, differs_from_handwritten=0)
+        hand = dict(answers)
+
+        def agree_g(real, model, info):
+            if _skip(real, model) is not None:
+                gst["unmodelled"] += 1
+                return True
+            gst["modelled"] += 1
+            h = hand.get(info[0])
+            if h is not None and not h.startswith("unmodelled") and h != model:
+                gst["differs_from_handwritten"] += 1
+            return answers_agree(real, model)
+        bad_g = ctx.correspond(label + ":translated-bodies", [("%s %s" % (g, c[0].split(" ", 1)[1]), c[1], c[2]) for c in cases],
+                               agree=agree_g, describe=describe)
+        gst["disagreements"] = len(bad_g)
+        ctx.cov["pipeline"][label + ":translated-bodies"] = gst
+        stats["translated_bodies"] = gst
     return stats
 
 
-def run_sessions(ctx, sessions, stream_name="runsess", timeout=5.0):
+def run_sessions(ctx, sessions, stream_name="runsess", timeout=5.0, bodies=False):
     """sessions: list of lists of texts; each list is run against ONE environment, in order."""
     R = ctx.real
     _stub_plots()
@@ -323,13 +390,22 @@ def run_sessions(ctx, sessions, stream_name="runsess", timeout=5.0):
     bad = ctx.correspond(stream_name, cases, agree=agree, describe=lambda info: "inputs=%r" % (info,))
     stats["disagreements"] = len(bad)
     ctx.cov.setdefault("pipeline", {})[stream_name] = dict(stats)
+    if bodies and stream_name in BODIES_STREAMS:
+        main = dict(stats)
+        stats.update(inputs=0, compared=0)
+        g = BODIES_STREAMS[stream_name]
+        bad_g = ctx.correspond(stream_name + ":translated-bodies", [("%s %s" % (g, c[0].split(" ", 1)[1]), c[1], c[2]) for c in cases],
+                               agree=agree, describe=lambda info: "inputs=%r" % (info,))
+        gst = dict(sessions=len(cases), inputs=stats["inputs"], compared=stats["compared"], disagreements=len(bad_g))
+        ctx.cov["pipeline"][stream_name + ":translated-bodies"] = gst
+        stats.clear(); stats.update(main); stats["translated_bodies"] = gst
     return stats
 
 
-def check(ctx, n_programs, n_sessions):
+def check(ctx, n_programs, n_sessions, bodies=False):
     """the standard whole-program run: generated programs + generated sessions; returns both statistics"""
-    a = run(ctx, gen_programs(ctx.rng, n_programs))
-    b = run_sessions(ctx, gen_sessions(ctx.rng, n_sessions))
+    a = run(ctx, gen_programs(ctx.rng, n_programs), bodies=bodies)
+    b = run_sessions(ctx, gen_sessions(ctx.rng, n_sessions), bodies=bodies)
     return dict(programs=a, sessions=b)
 
 
